@@ -712,8 +712,7 @@ fn setup(cfg: &J, src: &str, sh: &Arc<Mutex<Shared>>, retain_path: &std::path::P
     // FB associations) and image sizes the runtime works with are the ones the compiled container carries
     // (apply_bytecode_bytes, as bin/trust-runtime/run.rs does it), not the ones the harness build registered.  A
     // construct the bytecode compiler refuses stays on the direct path.
-    static DEPLOY_TURN: std::sync::atomic::AtomicUsize = std::sync::atomic::AtomicUsize::new(0);
-    if DEPLOY_TURN.fetch_add(1, std::sync::atomic::Ordering::SeqCst) % 2 == 1 {
+    if cfg["deployed"].as_bool().unwrap_or(false) {
         if let Ok(bytes) = trust_runtime::harness::bytecode_bytes_from_source(src) {
             h.runtime_mut().apply_bytecode_bytes(&bytes, None).map_err(|e| format!("apply_bytecode_bytes on the compiler's own container: {e}"))?;
             DEPLOYED.fetch_add(1, std::sync::atomic::Ordering::SeqCst);
